@@ -11,7 +11,7 @@ namespace AranyaV.Sym
 open Gen.C36
 
 /-- the tag half of an AEAD sealing; `Term.enc` is the body half -/
-def encTag (k n ad pt : Term) : Term := .cons (.lit [0x74, 0x61, 0x67]) (.enc k n ad pt)
+abbrev encTag (k n ad pt : Term) : Term := .etag k n ad pt
 
 theorem encTag_inj {k n ad pt k' n' ad' pt' : Term} (h : encTag k n ad pt = encTag k' n' ad' pt') :
     k = k' ∧ n = n' ∧ ad = ad' ∧ pt = pt' := by
